@@ -310,6 +310,8 @@ fn main() {
     let mut render = false;
     let mut abandon: Option<usize> = None;
     let mut pre_layouts: Vec<Vec<String>> = vec![];
+    let mut pre_digs: Vec<(String, Option<String>)> = vec![];
+    let mut set_bits: Vec<(String, usize)> = vec![];
     for line in text.lines() {
         let mut w = line.split_whitespace();
         let Some(cmd) = w.next() else { continue };
@@ -358,12 +360,30 @@ fn main() {
             "RENDER" => render = rest[0] == "1",
             "ABANDON" => abandon = Some(rest[0].parse().unwrap()),
             "PRE_LAYOUT" => pre_layouts.push(rest.iter().map(|s| unhex(s)).collect()),
+            "PRE_DIG" => pre_digs.push((unhex(rest[0]), rest.get(1).map(|s| s.to_string()))),
+            "SET_BITS" => set_bits.push((unhex(rest[0]), rest[1].parse().unwrap())),
             _ => panic!("unknown scenario line {line}"),
         }
     }
 
+    // documents loaded (and a test of them loaded) earlier in this process: they must leave nothing behind
+    for (doc, sel) in &pre_digs {
+        let r = catch_unwind(AssertUnwindSafe(|| match dig::File::parse(doc) {
+            Ok(f) => match sel {
+                Some(l) => match l.strip_prefix("name:") {
+                    Some(name) => f.load_test_by_name(&unhex(name)).is_ok(),
+                    None => f.load_test(l.parse().unwrap()).is_ok(),
+                },
+                None => true,
+            },
+            Err(_) => false,
+        }));
+        println!("PRE_DIG {}", match r { Ok(true) => "ok", Ok(false) => "err", Err(_) => "panic" });
+    }
+
     // ---- obtain a TestCase
-    let test_case: TestCase = if mode == "dig" {
+    #[allow(unused_mut)]
+    let mut test_case: TestCase = if mode == "dig" {
         let f = catch_unwind(|| dig::File::parse(&source));
         let f = match f {
             Err(e) => {
@@ -397,7 +417,23 @@ fn main() {
                 return;
             }
             Ok(Err(e)) => {
-                println!("LOAD err {}", one_line(&format!("{e}")));
+                // every label of the diagnostic must lie inside the source attached to it (else it cannot be rendered)
+                let (nlabels, labels_ok) = {
+                    use miette::Diagnostic;
+                    let d: &dyn Diagnostic = &e;
+                    let labels: Vec<miette::LabeledSpan> = d.labels().map(|l| l.collect()).unwrap_or_default();
+                    let ok = match d.source_code() {
+                        Some(src) => labels.iter().all(|l| src.read_span(l.inner(), 0, 0).is_ok()),
+                        None => labels.is_empty(),
+                    };
+                    (labels.len(), ok)
+                };
+                println!("LOAD err labels={} labels_ok={} {}", nlabels, labels_ok as u8, one_line(&format!("{e}")));
+                let r = catch_unwind(AssertUnwindSafe(|| format!("{:?}", miette::Report::new(e)).len()));
+                match r {
+                    Ok(n) => println!("RENDER ok {n}"),
+                    Err(e) => println!("RENDER panic {}", panic_msg(e)),
+                }
                 return;
             }
             Ok(Ok(tc)) => {
@@ -489,6 +525,16 @@ fn main() {
             .filter(|s| s.is_output())
             .map(|s| s.name.clone())
             .collect();
+    }
+
+    // the caller changes the width of a signal of the bound test (a public field) before running it
+    for (name, bits) in &set_bits {
+        for sg in test_case.signals.iter_mut() {
+            if &sg.name == name {
+                sg.bits = *bits;
+            }
+        }
+        println!("SET_BITS {} {}", hex(name), bits);
     }
 
     // earlier complete runs of the SAME TestCase value with other (individually consistent) drivers - another output
